@@ -39,7 +39,8 @@ SolveLeft(sr, A, b) == LLfp(sr, A, b, [j \in Nodes(A) |-> Zero(sr)])
 SolveRight(sr, A, b) == RLfp(sr, A, b, [j \in Nodes(A) |-> Zero(sr)])
 
 (* strongly connected components *)
-Edges(sr, A) == {<<A.edges[r][1], A.edges[r][2]>> : r \in {r \in DOMAIN A.edges : A.edges[r][3] # Zero(sr)}}
+(* an edge is a pair of nodes whose entries add up to a non-zero weight (signed entries may cancel) *)
+Edges(sr, A) == {p \in {<<A.edges[r][1], A.edges[r][2]>> : r \in DOMAIN A.edges} : W(sr, A, p[1], p[2]) # Zero(sr)}
 ReachL(E, S0) ==
   LET RECURSIVE Grow(_)
       Grow(S) == LET nx == S \cup {e[2] : e \in {e \in E : e[1] \in S}} IN IF nx = S THEN S ELSE Grow(nx)
